@@ -63,7 +63,11 @@ AddClamped(t, y, m, d) ==
       c  == CivilFromDays(DaysFromCivil(y2, m2, dd) + d)
   IN [t EXCEPT !.y = c.y, !.mo = c.mo, !.d = c.d]
 
-AddAllowed(t, y, m, d) == {AddNormalized(t, y, m, d), AddClamped(t, y, m, d)}
+\* "calendar-added": the years, months and days are added to the civil fields and the result is normalised - 31 January
+\* plus one month is the 31st day of February, i.e. 3 March (2 March in a leap year). An earlier version of this module also
+\* accepted the clamped reading; it is kept above as a named alternative but is no longer an allowed outcome (DESIGN 12.3):
+\* clamping makes "N months and D days" end up to three days earlier than the sum of the fields.
+AddAllowed(t, y, m, d) == {AddNormalized(t, y, m, d)}
 
 \* order of two civil times
 Before(a, b) ==
